@@ -326,6 +326,18 @@ for _g, _props in _RELP.items():
         benign_patch("%s.p%d" % (_g, _i), _props)
 
 
+# fourth corpus (T<prop>.p<i>: "go deeper" rewrites - storage nodes merged into one generic struct, shared fill helper / boxed constructor without a
+# Vec, pull-form map override on Box, forget-first hand-overs, where-clause reshuffles; written after seed round 7)
+_RELT = {"T01": ["C01", "C02", "C10", "C12", "C18", "C19"], "T03": ["C03", "C04", "C05", "C07", "C08", "C09", "C18"], "T07": ["C03", "C04", "C07", "C15", "C16"],
+         "T12": ["C08", "C09", "C12"], "T16": ["C03", "C04", "C08", "C15", "C16"]}
+_SKIPT = set()
+for _g, _props in _RELT.items():
+    for _i in (1, 2, 3):
+        if (_g, _i) in _SKIPT:
+            continue
+        benign_patch("%s.p%d" % (_g, _i), _props)
+
+
 # ---- mutants of the refactored forms: the semantic rules must still refute a wrong version of each alternative formulation ----
 def mutant_on_patch(name, patch, props, edits, expect=""):
     VARIANTS.append({"name": name, "kind": "mutant", "props": props, "edits": [("patch", patch + ".patch")] + edits, "expect": expect})
@@ -438,3 +450,15 @@ def _seeded():
 
 
 _seeded()
+
+
+# fourth corpus
+mutant_on_patch("m-T16p3-pull-map-skips-an-item", "T16.p3", ["C08"], [("src/impl_alloc.rs", "f(unsafe { source.next().unwrap_unchecked() })", "{ let _ = source.next(); f(unsafe { source.next().unwrap_unchecked() }) }")], "C08.R")
+mutant_on_patch("m-T16p3-pull-map-reversed-source", "T16.p3", ["C08"], [("src/impl_alloc.rs", "let mut source = GenericArray::into_vec(self).into_iter();", "let mut source = GenericArray::into_vec(self).into_iter().rev();")], "C08.R")
+mutant_on_patch("m-T16p2-default-takes-one-more", "T16.p2", ["C08"], [("src/impl_alloc.rs", "core::iter::repeat_with(T::default).take(N::USIZE).collect()", "core::iter::repeat_with(T::default).take(N::USIZE + 1).collect()")], "C08.D")
+mutant_on_patch("m-T03p3-assume-init-reads-off-the-field", "T03.p3", ["C03"], [("src/internal.rs", "GenericArray::assume_init(ptr::read(ptr::addr_of!((*this).array)))", "GenericArray::assume_init(ptr::read(ptr::addr_of!((*this).array).cast::<u8>().add(1).cast()))")], "C03.A")
+mutant_on_patch("m-T03p3-array-assume-init-of-a-prefix", "T03.p3", ["C03"], [("src/internal.rs", "mem::transmute_copy::<GenericArray<MaybeUninit<T>, N>, GenericArray<T, N>>(&array)", "mem::transmute_copy::<GenericArray<MaybeUninit<T>, N>, GenericArray<T, N>>(&*(array.as_ptr().wrapping_add(1) as *const GenericArray<MaybeUninit<T>, N>))")], "C03.A")
+mutant_on_patch("m-T01p3-even-node-carries-an-element", "T01.p3", ["C01"], [("src/lib.rs", "pub type GenericArrayImplEven<T, U> = GenericArrayImplNode<U, PhantomData<T>>;", "pub type GenericArrayImplEven<T, U> = GenericArrayImplNode<U, T>;")], "C01.S")
+mutant_on_patch("m-T07p3-surplus-probed-before-fullness", "T07.p3", ["C07"], [("src/lib.rs", "    if !builder.is_full() {\n        return Err(LengthError);\n    }\n\n    // every slot is taken, whatever the source yields now is one item too many\n    let surplus = iter.next();\n", "    let surplus = iter.next();\n    if !builder.is_full() {\n        return Err(LengthError);\n    }\n")], "C07.P")
+mutant_on_patch("m-T07p2-vec-length-test-inverted", "T07.p2", ["C07"], [("src/impl_alloc.rs", "if v.len() < N::USIZE || iter.next().is_some() {", "if v.len() > N::USIZE || iter.next().is_some() {")], "C07.O")
+mutant_on_patch("m-T07p1-hint-test-inverted", "T07.p1", ["C07"], [("src/lib.rs", "if lower > N::USIZE || upper.is_some_and(|upper| upper < N::USIZE) {", "if lower > N::USIZE || upper.is_some_and(|upper| upper > N::USIZE) {")], "C07.H")
